@@ -196,7 +196,12 @@ fn scale_pairs(spec: &Spec, len: usize, st: &mut Stats, sink: &Sink) {
         let m = max_abs(xs).max(max_abs(ys));
         let gain = if spec.kind == Kind::Cumulative { spec.n as f64 } else { 1.0 };
         let mut s = root::<f64>(spec);
+        let started = std::time::Instant::now();
         for t in 0..len {
+            if t % 4096 == 4095 && started.elapsed().as_secs() > SCALE_BUDGET_S {
+                st.bump("scale_family_budget_exceeded", 1);
+                return;
+            }
             let (x, y) = (xs[t], ys[t]);
             let r = guard(|| {
                 s.x.update(x);
